@@ -46,6 +46,19 @@ namespace boost { namespace gil {
 #pragma warning(disable:4512) //assignment operator could not be generated
 #endif
 
+namespace detail {
+
+/// Number of bits one pixel takes in a row or tile buffer that is traversed with the given iterator.
+template< typename Iterator >
+struct buffer_pixel_bit_size
+    : std::integral_constant< std::size_t, sizeof( typename std::iterator_traits< Iterator >::value_type ) * 8 > {};
+
+template< typename Reference >
+struct buffer_pixel_bit_size< bit_aligned_pixel_iterator< Reference > >
+    : std::integral_constant< std::size_t, Reference::bit_size > {};
+
+} // namespace detail
+
 template < int K >
 struct plane_recursion
 {
@@ -448,6 +461,15 @@ private:
 
        row_buffer_helper_t row_buffer_helper(this->_io_dev.get_tile_size(), true );
 
+       // A tile is addressed below as tile_width x tile_height pixels of the buffer's pixel type, while
+       // libtiff fills in as many bytes as the tags in the file imply. Contradictory tags must not
+       // make the copy loops run past the tile.
+       io_error_if( (  static_cast< std::size_t >( tile_width ) * tile_height
+                     * detail::buffer_pixel_bit_size< it_t >::value + 7 ) / 8
+                    > static_cast< std::size_t >( this->_io_dev.get_tile_size() )
+                  , "Inconsistent image format in tiff file."
+                  );
+
        for( unsigned int y = 0; y < image_height; y += tile_height )
        {
            for( unsigned int x = 0; x < image_width; x += tile_width )
@@ -562,6 +584,15 @@ private:
        tiff_tile_length::type tile_height = this->_info._tile_length;
 
        row_buffer_helper_t row_buffer_helper(this->_io_dev.get_tile_size(), true );
+
+       // A tile is addressed below as tile_width x tile_height pixels of the buffer's pixel type, while
+       // libtiff fills in as many bytes as the tags in the file imply. Contradictory tags must not
+       // make the copy loops run past the tile.
+       io_error_if( (  static_cast< std::size_t >( tile_width ) * tile_height
+                     * detail::buffer_pixel_bit_size< it_t >::value + 7 ) / 8
+                    > static_cast< std::size_t >( this->_io_dev.get_tile_size() )
+                  , "Inconsistent image format in tiff file."
+                  );
 
        for( unsigned int y = 0; y < image_height; y += tile_height )
        {
